@@ -411,6 +411,9 @@ def run(ctx):
     create_sets_lang(ctx, "R20.g")
     from . import r_state as RS
     RS.memo_coherence(ctx, "R20.h")
+    # scratch buffers (thread-locals shared by all ids, per-store scratch) must not carry content from one search into the
+    # next: otherwise the hits of an id depend on searches on other ids / on its own earlier searches
+    RS.reset_before_read(ctx, "R20.i", floor=8)
     RB.forwarders(ctx, "R20.e")
     return info("R20.a: every entry point that inserts into / removes from one thread-local registry does the same to the other "
                 "under its own id parameter, inserts replace rather than keep entries; R20.b: the registry accessors look up their "
